@@ -35,7 +35,7 @@ COMPS = [
                 monitors=["addr-not-returned", "nat-residue", "qos-residue", "cache-residue", "index-residue",
                           "missing-stop", "double-stop", "stop-unstarted", "second-end-effect", "view-skew", "obs-roundtrip"]),
 ]
-SPEC = ["Bng.Spec.C16Dhcp"]
+SPEC = ["Bng.Spec.C16Dhcp", "Bng.Spec.C16DhcpMon"]
 
 LEVEL = ("DHCPv4: for ALL histories of DISCOVER / REQUEST (new session, renewal, renewal under another circuit-id) / "
          "RELEASE / DECLINE / clock ticks / cleanup passes / interleaved and simultaneous terminations the Lean model of "
@@ -69,8 +69,12 @@ ASSUME = [
     "another live session) are refused by harness and driver alike; a termination inside an establishment's unlock window "
     "is the op `estgap`; an ESTABLISHMENT inside the TAIL of a termination is not explored",
     "dhcpterm: the VLAN-pair cache is observed (it must stay empty): no code path of pkg/dhcp sets Lease.STag/CTag",
-    "dhcpterm: the monitor (Bng.DhcpTerm.monitor) is validated by the runs only: silent on the unchanged tree outside the two "
-    "recorded clauses, fires nat-residue / qos-residue / missing-stop on the tree before ff76ae1 and, for clients with a "
-    "chaddr that is not 6 bytes long, with 2d9d12b reverted; residue is judged globally: an entry that no lease accounts for "
-    "and that was not already an orphan before the operation",
+    "dhcpterm: the monitor is the pure function Bng.DhcpTerm.monitorCore over structured observations; Spec.C16DhcpMon."
+    "monitor_silent_on_model proves that on EVERY history of the model's operations with atomic establishment it raises "
+    "nothing but KF-dhcp4-offer-pinned / KF-dhcp4-shutdown-residue (all clauses); histories with a raced establishment "
+    "(estgap) and the two clauses KF-dhcp4-establish-race / KF-dhcp4-stale-index-revival are validated by the runs and the "
+    "witness theorems only; the string layer is cross-checked on every line (parseSnap (showSnapshot s) = obsOf s, verdict "
+    "obs-roundtrip); residue is judged globally: an entry that no lease accounts for and that was not already an orphan "
+    "before the operation; the monitor fires nat-residue / qos-residue / missing-stop on the tree before ff76ae1 and, for "
+    "clients with a chaddr that is not 6 bytes long, with 2d9d12b reverted",
 ]
